@@ -1,2 +1,913 @@
-// Package c08 is the check for property C08 (see DESIGN.md section 3).
+// Package c08: module digests are a pure, sensitive function of content; manifests are canonical.
+//
+// Bounded-exhaustive exploration of the real bufmodule / bufcas code (see NOTES.md):
+//
+//	part A  every file set of <= K paths of a 14-path universe x contents {"", "a", "b"}, digested as a
+//	        local module (memory, disk, tar and zip round trips, every Walk permutation, names none/n1/n2,
+//	        targeting variants, v1 object data) and as a remote module (own ModuleDataProvider with b5 and
+//	        b4 keys, bufmoduletesting.OmniProvider, module cache dir and tar), plus every single
+//	        perturbation (content / rename / add / remove of every file);
+//	part A2 every single-byte replacement at every position of module-file contents of several lengths;
+//	part B  every DAG on <= 3 modules x every local/remote assignment x naming x add order x targeting,
+//	        every single-module content change, every single pinned dependency-digest byte change;
+//	part C  bufcas file sets / manifests over an extended path universe (spaces, unicode, control chars).
+//
+// Oracles: the independent reference construction in ref.go, invariance, sensitivity, round trip.
 package c08
+
+import (
+	"context"
+	"encoding/hex"
+	"errors"
+	"fmt"
+	"hash/fnv"
+	"os"
+	"path/filepath"
+	"runtime/debug"
+	"sort"
+	"strings"
+	"sync"
+	"time"
+
+	"github.com/bufbuild/buf/private/bufpkg/bufmodule"
+	"github.com/bufbuild/buf/private/bufpkg/bufmodule/bufmoduletesting"
+	"github.com/bufbuild/buf/private/bufpkg/bufparse"
+	"github.com/bufbuild/buf/private/pkg/slogext"
+	"github.com/bufbuild/bufverif/internal/enum"
+	"github.com/bufbuild/bufverif/internal/evid"
+)
+
+func init() {
+	evid.Register(&evid.Check{ID: "C08", Level: "exploration", Run: run, QuickBudget: 150 * time.Second, ThoroughBudget: 20 * time.Minute})
+}
+
+// universe is the 14-path universe of DESIGN.md.
+var universe = []string{
+	"a.proto", "d/a.proto", "d/e/b.proto", "a b.proto", "a  b.proto", "ü.proto",
+	"LICENSE", "d/LICENSE",
+	"buf.md", "README.md", "README.markdown",
+	"x.txt", "buf.yaml", "a.proto.bak",
+}
+
+var contentAlphabet = []string{"", "a", "b"}
+
+var digestTypes = []string{"b4", "b5"}
+
+// explorer carries the run and merges per-item tallies.
+type explorer struct {
+	r       *evid.Run
+	ctx     context.Context
+	scratch string
+	mu      sync.Mutex
+	total   tally
+	memo    *memo
+}
+
+func (e *explorer) merge(t tally) {
+	e.mu.Lock()
+	for k, v := range t {
+		e.total[k] += v
+	}
+	e.mu.Unlock()
+}
+
+func (e *explorer) count(k string) int {
+	e.mu.Lock()
+	defer e.mu.Unlock()
+	return e.total[k]
+}
+
+func run(r *evid.Run) {
+	r.Rule("part A: every subset of <= K paths of the 14-path universe x every content vector over {\"\",a,b}, each digested (b4 and b5) " +
+		"through every configuration (backend x Walk permutation x name x locality x provider x targeting) and every single perturbation; " +
+		"part A2: every single-byte replacement at every position; part B: every DAG on <= 3 modules x local/remote assignment x naming x add order x targeting " +
+		"x provider, every single-module content change and every single pinned dependency-digest byte change; part C: every subset of <= K paths of the " +
+		"20-path manifest universe x contents {\"\",a}. A case is distinct and non-trivial when its reference module-file set (A), its " +
+		"(graph, assignment, naming) triple (B) or its reference manifest text (C) is new and non-empty.")
+	r.Assume("SHAKE256 from golang.org/x/crypto/sha3 is collision free on the enumerated inputs (used as the reference hash)")
+	r.Assume("a local module without any .proto file has no b5 digest (buf reports NoProtoFilesError); such (file set, local, b5) combinations are counted as skipped, the same file sets are still digested as remote modules and with b4")
+	r.Assume("b4 with v1 buf.yaml/buf.lock object data hashes them as two extra manifest entries (documented legacy construction); b5 must ignore them")
+	r.Assume("dependencies of remote modules are pinned b5 module keys; the b4-keyed dependency path through a CommitProvider is not explored")
+	r.Assume("storage backends are healthy (no I/O faults) and the disk backend is a Linux file system accepting the universe's file names")
+
+	scratch, err := os.MkdirTemp("", "verif-c08-")
+	if err != nil {
+		r.Incomplete("cannot create scratch dir: " + err.Error())
+		return
+	}
+	defer os.RemoveAll(scratch)
+
+	// Every content hash in buf allocates a 32 KiB copy buffer, so with a tiny live heap the collector would
+	// run every few hundred digests; a larger GC target trades some memory for time. The soft memory limit keeps
+	// the process below ~3 GiB whatever the live heap is (both settings are restored on return).
+	defer debug.SetGCPercent(debug.SetGCPercent(400))
+	defer debug.SetMemoryLimit(debug.SetMemoryLimit(3 << 30))
+
+	e := &explorer{r: r, ctx: context.Background(), scratch: scratch, total: tally{}}
+	k := 3
+	if !r.Quick() {
+		k = 4
+	}
+	r.Set("bound_max_files_per_set", k)
+	r.Set("universe_paths", universe)
+	r.Set("content_alphabet", contentAlphabet)
+
+	// VERIF_C08_PARTS (debugging aid, e.g. "B,C") restricts the run to some parts; such a run is never exhaustive.
+	parts := map[string]bool{"A": true, "A2": true, "B": true, "C": true}
+	if sel := os.Getenv("VERIF_C08_PARTS"); sel != "" {
+		parts = map[string]bool{}
+		for _, p := range strings.Split(sel, ",") {
+			parts[p] = true
+		}
+		r.Incomplete("partial run: VERIF_C08_PARTS=" + sel)
+	}
+	if parts["A"] {
+		e.memo = newMemo()
+		e.partA(k)
+		if !r.Expired() {
+			e.purity()
+		}
+		e.memo = nil
+	}
+	if parts["A2"] {
+		e.partBytes()
+	}
+	if parts["B"] {
+		e.partB()
+	}
+	if parts["C"] {
+		e.partC(k)
+	}
+
+	// coverage facts and vacuity guards
+	keys := make([]string, 0, len(e.total))
+	for key := range e.total {
+		keys = append(keys, key)
+	}
+	sort.Strings(keys)
+	clauses := map[string]int{}
+	for _, key := range keys {
+		clauses[key] = e.total[key]
+	}
+	r.Set("clause_counts", clauses)
+	for _, must := range []string{
+		"A/cases", "A/cases-with-non-module-files", "A/cases-with-shadowed-doc-file", "A/cases-with-nested-license",
+		"A/agree/baseline", "A/agree/name", "A/agree/walk-order", "A/agree/backend-disk", "A/agree/backend-tar", "A/agree/backend-zip",
+		"A/agree/remote-b5key", "A/agree/remote-b4key", "A/agree/remote-omni", "A/agree/cache-dir", "A/agree/cache-tar",
+		"A/agree/targeting", "A/agree/v1-object-data",
+		"A/perturb/content/module", "A/perturb/content/non-module", "A/perturb/rename/module", "A/perturb/rename/non-module",
+		"A/perturb/add/module", "A/perturb/add/non-module", "A/perturb/remove/module", "A/perturb/remove/non-module",
+		"A2/byte-replacements",
+		"B/cases", "B/cases-with-transitive-dep", "B/cases-mixed-local-remote", "B/agree/local", "B/agree/remote", "B/agree/omni",
+		"B/perturb/dependent-changed", "B/perturb/independent-unchanged", "B/pinned-digest-change/detected", "B/pinned-digest-change/rekeyed",
+		"B/dep-order-not-sorted-as-given",
+		"C/cases", "C/roundtrip-ok", "C/paths-with-space", "C/paths-with-unicode", "C/walk-orders",
+	} {
+		if e.total[must] == 0 && !r.Expired() && parts[strings.SplitN(must, "/", 2)[0]] {
+			r.Incomplete("vacuity: clause counter " + must + " is zero")
+		}
+	}
+}
+
+// ---------------------------------------------------------------------------------------------
+// part A
+
+type caseA struct {
+	Part     string            `json:"part"`
+	Files    map[string]string `json:"files"`
+	Config   string            `json:"config,omitempty"`
+	Order    []string          `json:"walk_order,omitempty"`
+	Digest   string            `json:"digest_type,omitempty"`
+	Want     string            `json:"want,omitempty"`
+	Got      string            `json:"got,omitempty"`
+	Err      string            `json:"error,omitempty"`
+	Perturb  string            `json:"perturbation,omitempty"`
+	Files2   map[string]string `json:"files_after,omitempty"`
+	Got2     string            `json:"got_after,omitempty"`
+	Expected string            `json:"expected,omitempty"`
+}
+
+func (e *explorer) partA(k int) {
+	subsets := enum.Subsets(len(universe), 0, k)
+	e.r.Set("A_subsets", len(subsets))
+	var caseCounter int
+	starts := make([]int, len(subsets))
+	for i, s := range subsets {
+		starts[i] = caseCounter
+		n := 1
+		for range s {
+			n *= len(contentAlphabet)
+		}
+		caseCounter += n
+	}
+	e.r.Set("A_file_sets", caseCounter)
+	// larger subsets first so the long items do not end up as stragglers
+	idx := identity(len(subsets))
+	sort.SliceStable(idx, func(a, b int) bool { return len(subsets[idx[a]]) > len(subsets[idx[b]]) })
+	e.r.ParallelFor(len(idx), 0, func(w int) {
+		si := idx[w]
+		subset := subsets[si]
+		t := tally{}
+		dims := make([]int, len(subset))
+		for i := range dims {
+			dims[i] = len(contentAlphabet)
+		}
+		caseID := starts[si]
+		each := func(cv []int) bool {
+			files := map[string]string{}
+			for i, u := range subset {
+				files[universe[u]] = contentAlphabet[cv[i]]
+			}
+			e.caseA(t, caseID, files)
+			caseID++
+			return !e.r.Expired()
+		}
+		if len(subset) == 0 {
+			each(nil)
+		} else {
+			enum.Product(dims, each)
+		}
+		e.merge(t)
+	})
+}
+
+// caseState holds the per-case reference values and the baseline observation.
+type caseState struct {
+	e        *explorer
+	t        tally
+	files    map[string]string
+	mf       map[string]string
+	hasProto bool
+	want     map[string]string
+	base     map[string]string // baseline (local, memory) observation per digest type, "" if unavailable
+	baseErr  map[string]string // error class of the baseline configuration per digest type
+}
+
+func (e *explorer) caseA(t tally, caseID int, files map[string]string) {
+	r := e.r
+	r.Eval(1)
+	t.add("A/cases", 1)
+	mf := refModuleFiles(files)
+	cs := &caseState{e: e, t: t, files: files, mf: mf, hasProto: refHasProto(files),
+		want: map[string]string{"b4": refB4(mf, nil), "b5": refB5(mf, nil)},
+		base: map[string]string{}, baseErr: map[string]string{}}
+	if len(mf) > 0 {
+		r.Distinct("A|" + refKey(mf))
+	}
+	if len(mf) < len(files) {
+		t.add("A/cases-with-non-module-files", 1)
+	}
+	docs := 0
+	for _, d := range refDocOrder {
+		if _, ok := files[d]; ok {
+			docs++
+		}
+	}
+	if docs >= 2 {
+		t.add("A/cases-with-shadowed-doc-file", 1)
+	}
+	if _, ok := files["d/LICENSE"]; ok {
+		t.add("A/cases-with-nested-license", 1)
+	}
+	if !cs.hasProto {
+		t.add("A/cases-without-proto", 1)
+	}
+	r.SampleEvery(caseID, 1499, func() any {
+		return map[string]any{"part": "A", "files": files, "module_files": sortedKeys(mf), "ref_b4": cs.want["b4"], "ref_b5": cs.want["b5"]}
+	})
+	paths := sortedKeys(files)
+	ctx := e.ctx
+
+	localSpec := func() modSpec {
+		b, err := memBucket(files)
+		if err != nil {
+			panic(err)
+		}
+		return modSpec{bucket: b, bucketID: "bkt", target: true}
+	}
+	remoteSpec := func(keyDigest string) modSpec {
+		b, err := memBucket(files)
+		if err != nil {
+			panic(err)
+		}
+		return modSpec{remote: true, bucket: b, name: nameN1, commit: commitFor(nameN1, 0), target: true, keyDigest: keyDigest}
+	}
+	one := func(s modSpec, cm cacheMode) func() (bufmodule.Module, error) {
+		return func() (bufmodule.Module, error) {
+			mods, err := buildSet(ctx, []modSpec{s}, []int{0}, cm)
+			if err != nil {
+				return nil, err
+			}
+			return mods[0], nil
+		}
+	}
+
+	// 1. baseline
+	cs.config("baseline", true, nil, nil, one(localSpec(), cacheNone))
+	// 2. names
+	for _, n := range []string{nameN1, nameN2} {
+		s := localSpec()
+		s.name, s.commit = n, commitFor(n, 0)
+		cs.config("name", true, nil, nil, one(s, cacheNone))
+	}
+	// 3. every Walk permutation of all files of the set
+	if len(paths) >= 2 {
+		for pi, perm := range enum.Permutations(len(paths)) {
+			if pi == 0 {
+				continue
+			}
+			order := make([]string, len(paths))
+			for i, p := range perm {
+				order[i] = paths[p]
+			}
+			s := localSpec()
+			s.bucket = withOrder(s.bucket, order)
+			cs.config("walk-order", true, order, nil, one(s, cacheNone))
+		}
+		// remote, reversed
+		order := make([]string, len(paths))
+		for i := range paths {
+			order[i] = paths[len(paths)-1-i]
+		}
+		s := remoteSpec(cs.want["b5"])
+		s.bucket = withOrder(s.bucket, order)
+		cs.config("walk-order", false, order, nil, one(s, cacheNone))
+	}
+	// 4. backends
+	{
+		dir := filepath.Join(e.scratch, fmt.Sprintf("a-%d", caseID))
+		b, err := diskBucket(dir, files)
+		if err != nil {
+			r.Incomplete("disk backend: " + err.Error())
+		} else {
+			s := localSpec()
+			s.bucket = b
+			cs.config("backend-disk", true, nil, nil, one(s, cacheNone))
+		}
+		_ = os.RemoveAll(dir)
+	}
+	if b, err := tarRoundTrip(ctx, files); err != nil {
+		cs.violate("backend-error/tar/"+errClass(err), "tar round trip of the file set failed: "+err.Error(), caseA{Part: "A", Files: files, Config: "backend-tar", Err: err.Error()})
+	} else {
+		s := localSpec()
+		s.bucket = b
+		cs.config("backend-tar", true, nil, nil, one(s, cacheNone))
+	}
+	if b, err := zipRoundTrip(ctx, files, caseID%2 == 0); err != nil {
+		cs.violate("backend-error/zip/"+errClass(err), "zip round trip of the file set failed: "+err.Error(), caseA{Part: "A", Files: files, Config: "backend-zip", Err: err.Error()})
+	} else {
+		s := localSpec()
+		s.bucket = b
+		cs.config("backend-zip", true, nil, nil, one(s, cacheNone))
+	}
+	// 5. remote modules: own provider (b5 key, b4 key), module cache (dir, tar), OmniProvider
+	cs.config("remote-b5key", false, nil, nil, one(remoteSpec(cs.want["b5"]), cacheNone))
+	cs.config("remote-b4key", false, nil, nil, one(remoteSpec(cs.want["b4"]), cacheNone))
+	cs.config("cache-dir", false, nil, nil, one(remoteSpec(cs.want["b5"]), cacheDir))
+	cs.config("cache-tar", false, nil, nil, one(remoteSpec(cs.want["b5"]), cacheTar))
+	if cs.hasProto { // the OmniProvider computes keys from a local module, which needs a .proto file for b5
+		cs.config("remote-omni", false, nil, nil, func() (bufmodule.Module, error) {
+			mods, err := buildSetOmni(ctx, []modSpec{{remote: true, name: nameN1, commit: commitFor(nameN1, 0), target: true}},
+				[]map[string]string{files}, []int{0})
+			if err != nil {
+				return nil, err
+			}
+			return mods[0], nil
+		})
+	}
+	// 6. targeting
+	for _, p := range paths {
+		if !refIsProto(p) {
+			continue
+		}
+		s := localSpec()
+		s.targetPaths = []string{p}
+		cs.config("targeting", true, nil, nil, one(s, cacheNone))
+		s = localSpec()
+		s.excludePaths = []string{p}
+		cs.config("targeting", true, nil, nil, one(s, cacheNone))
+		s = localSpec()
+		s.protoTarget = p
+		cs.config("targeting", true, nil, nil, one(s, cacheNone))
+		s = remoteSpec(cs.want["b5"])
+		s.targetPaths = []string{p}
+		cs.config("targeting", false, nil, nil, one(s, cacheNone))
+	}
+	cs.config("targeting", true, nil, nil, func() (bufmodule.Module, error) {
+		s := localSpec()
+		s.target = false
+		other, err := memBucket(map[string]string{"zz/t.proto": ""})
+		if err != nil {
+			return nil, err
+		}
+		mods, err := buildSet(ctx, []modSpec{s, {bucket: other, bucketID: "other", target: true}}, []int{0, 1}, cacheNone)
+		if err != nil {
+			return nil, err
+		}
+		return mods[0], nil
+	})
+	// 7. v1 object data: two more manifest entries for b4, nothing for b5
+	{
+		s := localSpec()
+		s.yaml = &[2]string{"buf.yaml", "version: v1\n"}
+		s.lock = &[2]string{"buf.lock", "# lock\n"}
+		od := map[string]string{"buf.yaml": "version: v1\n", "buf.lock": "# lock\n"}
+		cs.config("v1-object-data", true, nil, map[string]string{"b4": refB4(mf, od)}, one(s, cacheNone))
+	}
+
+	// 8. every single perturbation
+	cs.perturbations()
+}
+
+func (cs *caseState) violate(sig, what string, c any) {
+	cs.e.r.Violate(sig, what, c)
+}
+
+// config runs one configuration: builds the module and compares both digest types with the reference.
+// wantOverride replaces the reference value for single digest types (v1 object data).
+func (cs *caseState) config(dim string, local bool, order []string, wantOverride map[string]string, build func() (bufmodule.Module, error)) {
+	r := cs.e.r
+	r.Eval(1)
+	m, err := build()
+	if err != nil {
+		// The module cache verifies a module against its key when it is stored: a mismatch there is the
+		// same observation as a mismatching Digest().
+		var dm *bufmodule.DigestMismatchError
+		if errors.As(err, &dm) && dm.ActualDigest != nil {
+			dt := "b5"
+			if dm.ActualDigest.Type() == bufmodule.DigestTypeB4 {
+				dt = "b4"
+			}
+			cs.compare(dim, dt, order, cs.want[dt], false, dm.ActualDigest.String(), err)
+			return
+		}
+		cs.violate("build-error/"+dim+"/"+errClass(err), "building the module set failed: "+err.Error(),
+			caseA{Part: "A", Files: cs.files, Config: dim, Order: order, Err: err.Error()})
+		return
+	}
+	for _, dt := range digestTypes {
+		want := cs.want[dt]
+		overridden := false
+		if w, ok := wantOverride[dt]; ok {
+			want, overridden = w, true
+		}
+		o := digestOf(m, dt)
+		if local && dt == "b5" && !cs.hasProto && isNoProto(o.err) {
+			cs.t.add("A/skipped-local-b5-without-proto", 1)
+			continue
+		}
+		if o.s == "" {
+			var dm *bufmodule.DigestMismatchError
+			if errors.As(o.err, &dm) {
+				continue // verification against the key of the other digest type failed; reported for that type
+			}
+			ec := errClass(o.err)
+			if dim == "baseline" {
+				cs.baseErr[dt] = ec
+			} else if cs.baseErr[dt] == ec {
+				continue // the same failure as the baseline configuration, reported there
+			}
+			sig := "digest-error/" + dt + "/" + ec
+			if dim != "baseline" && cs.base[dt] != "" {
+				sig = "digest-error/" + dim + "/" + dt + "/" + ec
+			}
+			cs.violate(sig, fmt.Sprintf("Digest(%s) failed where a digest is defined: %v", dt, o.err),
+				caseA{Part: "A", Files: cs.files, Config: dim, Order: order, Digest: dt, Want: want, Err: fmt.Sprint(o.err)})
+			continue
+		}
+		if dim == "baseline" {
+			cs.base[dt] = o.s
+		}
+		cs.compare(dim, dt, order, want, overridden, o.s, o.err)
+	}
+}
+
+// compare checks one observed digest against the reference and attributes a deviation.
+func (cs *caseState) compare(dim, dt string, order []string, want string, overridden bool, got string, err error) {
+	if got == want {
+		cs.t.add("A/agree/"+dim, 1)
+		return
+	}
+	base := cs.base[dt]
+	baseDeviates := base != "" && base != cs.want[dt]
+	if dim != "baseline" && baseDeviates && (got == base || overridden) {
+		return // the same deviation as the baseline configuration, reported there
+	}
+	diag := diagnose(dt, got, cs.files, nil, order)
+	sig := "refdigest/" + dt + "/" + diag
+	what := fmt.Sprintf("%s digest differs from the reference construction (%s)", dt, diag)
+	if dim != "baseline" && base != "" {
+		sig = "invariance/" + dim + "/" + dt + "/" + diag
+		what = fmt.Sprintf("%s digest under configuration %q differs from the reference and from the baseline configuration (%s)", dt, dim, diag)
+	}
+	if overridden {
+		sig = "refdigest-v1-object-data/" + dt
+		what = dt + " digest with v1 buf.yaml/buf.lock object data differs from the reference construction"
+	}
+	c := caseA{Part: "A", Files: cs.files, Config: dim, Order: order, Digest: dt, Want: want, Got: got}
+	if err != nil {
+		c.Err = err.Error()
+	}
+	cs.violate(sig, what, c)
+}
+
+// obsNames are the observables used by the perturbation oracles.
+var obsNames = [3]string{"local-b4", "local-b5", "remote-b5"}
+
+// obsVal holds the three observed digests of a file set (raw 64-byte values; has[i] false if undefined).
+type obsVal struct {
+	has [3]bool
+	d   [3][64]byte
+}
+
+func (v *obsVal) set(i int, digest string) {
+	_, hx, ok := strings.Cut(digest, ":")
+	if !ok || len(hx) != 128 {
+		return
+	}
+	raw, err := hex.DecodeString(hx)
+	if err != nil {
+		return
+	}
+	copy(v.d[i][:], raw)
+	v.has[i] = true
+}
+
+func (v *obsVal) str(i int) string {
+	if !v.has[i] {
+		return ""
+	}
+	prefix := "b5:"
+	if i == 0 {
+		prefix = "shake256:"
+	}
+	return prefix + hex.EncodeToString(v.d[i][:])
+}
+
+// memo remembers the observation of every grid file set (contents over the alphabet), so that the
+// perturbation neighbours shared by many cases are digested once.
+type memo struct {
+	shards [64]struct {
+		mu sync.Mutex
+		m  map[string]memoEntry
+	}
+}
+
+type memoEntry struct {
+	mfKey string
+	v     obsVal
+}
+
+func newMemo() *memo {
+	m := &memo{}
+	for i := range m.shards {
+		m.shards[i].m = map[string]memoEntry{}
+	}
+	return m
+}
+
+func compactKey(files map[string]string) string {
+	var sb strings.Builder
+	for _, p := range sortedKeys(files) {
+		sb.WriteString(p)
+		sb.WriteByte(0)
+		sb.WriteString(files[p])
+		sb.WriteByte(1)
+	}
+	return sb.String()
+}
+
+func inAlphabet(files map[string]string) bool {
+	for _, c := range files {
+		if c != "" && c != "a" && c != "b" {
+			return false
+		}
+	}
+	return true
+}
+
+func (e *explorer) observeMemo(files map[string]string) obsVal {
+	if e.memo == nil || !inAlphabet(files) {
+		return e.observe(files)
+	}
+	key := compactKey(files)
+	h := fnv.New32a()
+	h.Write([]byte(key))
+	sh := &e.memo.shards[h.Sum32()%64]
+	sh.mu.Lock()
+	ent, ok := sh.m[key]
+	sh.mu.Unlock()
+	if ok {
+		return ent.v
+	}
+	v := e.observe(files)
+	sh.mu.Lock()
+	sh.m[key] = memoEntry{mfKey: compactKey(refModuleFiles(files)), v: v}
+	sh.mu.Unlock()
+	return v
+}
+
+// observe digests a file set in the baseline local configuration and as a remote module.
+// Observables: local-b4, local-b5 (undefined without .proto), remote-b5.
+func (e *explorer) observe(files map[string]string) obsVal {
+	var out obsVal
+	ctx := e.ctx
+	e.r.Eval(1)
+	if b, err := memBucket(files); err == nil {
+		if mods, err := buildSet(ctx, []modSpec{{bucket: b, bucketID: "bkt", target: true}}, []int{0}, cacheNone); err == nil {
+			out.set(0, digestOf(mods[0], "b4").s)
+			if refHasProto(files) {
+				out.set(1, digestOf(mods[0], "b5").s)
+			}
+		}
+	}
+	if b, err := memBucket(files); err == nil {
+		s := modSpec{remote: true, bucket: b, name: nameN1, commit: commitFor(nameN1, 0), target: true, keyDigest: refB5(refModuleFiles(files), nil)}
+		if mods, err := buildSet(ctx, []modSpec{s}, []int{0}, cacheNone); err == nil {
+			out.set(2, digestOf(mods[0], "b5").s)
+		}
+	}
+	return out
+}
+
+// purity checks, over every memoised grid file set, that the observed digests are a function of the
+// reference module-file set and that this function is injective.
+func (e *explorer) purity() {
+	for x := 0; x < 3; x++ {
+		byMF := map[string][64]byte{}
+		byDigest := map[[64]byte]string{}
+		n := 0
+		for i := range e.memo.shards {
+			for _, ent := range e.memo.shards[i].m {
+				if !ent.v.has[x] {
+					continue
+				}
+				n++
+				d := ent.v.d[x]
+				if prev, ok := byMF[ent.mfKey]; ok && prev != d {
+					e.r.Violate("purity/same-module-files-different-digest", "two file sets with the same module files have different digests",
+						map[string]any{"part": "A", "module_files_key": ent.mfKey, "observable": obsNames[x]})
+				}
+				byMF[ent.mfKey] = d
+				if prev, ok := byDigest[d]; ok && prev != ent.mfKey {
+					e.r.Violate("purity/different-module-files-same-digest", "two file sets with different module files have the same digest",
+						map[string]any{"part": "A", "module_files_key": ent.mfKey, "other_module_files_key": prev, "observable": obsNames[x]})
+				}
+				byDigest[d] = ent.mfKey
+			}
+		}
+		e.total["A/purity/file-sets/"+obsNames[x]] = n
+		e.total["A/purity/distinct-module-file-sets/"+obsNames[x]] = len(byMF)
+	}
+}
+
+type perturbation struct {
+	kind    string // content | rename | add | remove
+	desc    string
+	files   map[string]string
+	touched [2]string // path touched in the original set, path touched in the perturbed set ("" if none)
+}
+
+// contentVariants: every other alphabet content (byte changed / removed / inserted), a trailing NUL
+// appended, and single-bit flips of every byte (bit 0 in the quick tier, all 8 bits in thorough; part A2
+// tries all 255 replacement values).
+func contentVariants(c string, quick bool) []string {
+	var out []string
+	for _, a := range contentAlphabet {
+		if a != c {
+			out = append(out, a)
+		}
+	}
+	out = append(out, c+"\x00")
+	bits := 8
+	if quick {
+		bits = 1
+	}
+	for i := 0; i < len(c); i++ {
+		for bit := 0; bit < bits; bit++ {
+			b := []byte(c)
+			b[i] ^= 1 << bit
+			out = append(out, string(b))
+		}
+	}
+	return out
+}
+
+func singlePerturbations(files map[string]string, quick bool) []perturbation {
+	var out []perturbation
+	paths := sortedKeys(files)
+	for _, p := range paths {
+		for _, v := range contentVariants(files[p], quick) {
+			f := cloneFiles(files)
+			f[p] = v
+			out = append(out, perturbation{"content", fmt.Sprintf("content of %q: %q -> %q", p, files[p], v), f, [2]string{p, p}})
+		}
+	}
+	for _, p := range paths {
+		for _, q := range universe {
+			if _, ok := files[q]; ok {
+				continue
+			}
+			f := cloneFiles(files)
+			delete(f, p)
+			f[q] = files[p]
+			out = append(out, perturbation{"rename", fmt.Sprintf("rename %q -> %q", p, q), f, [2]string{p, q}})
+		}
+	}
+	for _, q := range universe {
+		if _, ok := files[q]; ok {
+			continue
+		}
+		for _, c := range contentAlphabet {
+			f := cloneFiles(files)
+			f[q] = c
+			out = append(out, perturbation{"add", fmt.Sprintf("add %q = %q", q, c), f, [2]string{"", q}})
+		}
+	}
+	for _, p := range paths {
+		f := cloneFiles(files)
+		delete(f, p)
+		out = append(out, perturbation{"remove", fmt.Sprintf("remove %q", p), f, [2]string{p, ""}})
+	}
+	return out
+}
+
+func (cs *caseState) perturbations() {
+	before := cs.e.observeMemo(cs.files)
+	keyBefore := refKey(cs.mf)
+	for _, p := range singlePerturbations(cs.files, cs.e.r.Quick()) {
+		after := cs.e.observeMemo(p.files)
+		expectChange := refKey(refModuleFiles(p.files)) != keyBefore
+		role := "non-module"
+		if expectChange {
+			role = "module"
+		}
+		cs.t.add("A/perturb/"+p.kind+"/"+role, 1)
+		for x := range obsNames {
+			if !before.has[x] || !after.has[x] {
+				continue
+			}
+			if (before.d[x] != after.d[x]) == expectChange {
+				continue
+			}
+			verdict, exp := "insensitive", "digest must change: the perturbation changes the module-file set"
+			if !expectChange {
+				verdict, exp = "oversensitive", "digest must not change: the perturbation leaves the module-file set unchanged"
+			}
+			// the role of the touched file (in the original set if it has one there, else in the perturbed set)
+			role := "non-module"
+			if p.touched[0] != "" {
+				role = refRole(p.touched[0], cs.files)
+			}
+			if role == "non-module" && p.touched[1] != "" {
+				role = refRole(p.touched[1], p.files)
+			}
+			cs.violate("sensitivity/"+verdict+"/"+role, exp,
+				caseA{Part: "A", Files: cs.files, Config: obsNames[x], Perturb: p.desc, Files2: p.files, Got: before.str(x), Got2: after.str(x), Expected: exp})
+		}
+	}
+}
+
+// buildSetOmni builds a module set whose remote modules are served by bufmoduletesting.OmniProvider.
+// specs[i].remote modules take their content from contents[i]; local specs are added as in buildSet.
+func buildSetOmni(ctx context.Context, specs []modSpec, contents []map[string]string, order []int) ([]bufmodule.Module, error) {
+	var datas []bufmoduletesting.ModuleData
+	for i, s := range specs {
+		if s.remote {
+			datas = append(datas, bufmoduletesting.ModuleData{Name: s.name, CommitID: s.commit, PathToData: toBytes(contents[i])})
+		}
+	}
+	omni, err := bufmoduletesting.NewOmniProvider(datas...)
+	if err != nil {
+		return nil, fmt.Errorf("omni provider: %w", err)
+	}
+	sb := bufmodule.NewModuleSetBuilder(ctx, slogext.NopLogger, omni, omni)
+	for _, i := range order {
+		s := specs[i]
+		if s.remote {
+			fn, err := fullName(s.name)
+			if err != nil {
+				return nil, err
+			}
+			ref, err := bufparse.NewRef(fn.Registry(), fn.Owner(), fn.Name(), "")
+			if err != nil {
+				return nil, err
+			}
+			keys, err := omni.GetModuleKeysForModuleRefs(ctx, []bufparse.Ref{ref}, bufmodule.DigestTypeB5)
+			if err != nil {
+				return nil, fmt.Errorf("omni keys: %w", err)
+			}
+			sb.AddRemoteModule(keys[0], s.target)
+			continue
+		}
+		var opts []bufmodule.LocalModuleOption
+		if s.name != "" {
+			fn, err := fullName(s.name)
+			if err != nil {
+				return nil, err
+			}
+			opts = append(opts, bufmodule.LocalModuleWithFullNameAndCommitID(fn, s.commit))
+		}
+		sb.AddLocalModule(s.bucket, s.bucketID, s.target, opts...)
+	}
+	ms, err := sb.Build()
+	if err != nil {
+		return nil, err
+	}
+	out := make([]bufmodule.Module, len(specs))
+	for i, s := range specs {
+		var m bufmodule.Module
+		if s.name != "" {
+			fn, _ := fullName(s.name)
+			m = ms.GetModuleForFullName(fn)
+		} else {
+			m = ms.GetModuleForBucketID(s.bucketID)
+		}
+		if m == nil {
+			return nil, fmt.Errorf("module %d missing from the built module set", i)
+		}
+		if m.IsLocal() == s.remote {
+			return nil, fmt.Errorf("module %d: locality flipped", i)
+		}
+		out[i] = m
+	}
+	return out, nil
+}
+
+// ---------------------------------------------------------------------------------------------
+// part A2: every single-byte replacement
+
+func (e *explorer) partBytes() {
+	r := e.r
+	long := strings.Repeat("0123456789abcdef", 9)[:137] // crosses the SHAKE256 rate of 136 bytes
+	type base struct {
+		files map[string]string
+		path  string
+	}
+	var bases []base
+	for _, content := range []string{"a", "abc", long} {
+		bases = append(bases,
+			base{map[string]string{"a.proto": content}, "a.proto"},
+			base{map[string]string{"a.proto": "", "LICENSE": content}, "LICENSE"},
+			base{map[string]string{"a.proto": "", "buf.md": content, "README.md": "r"}, "buf.md"},
+			base{map[string]string{"a.proto": "", "d/e/b.proto": content, "x.txt": "x"}, "d/e/b.proto"},
+		)
+	}
+	type item struct {
+		b   base
+		pos int
+	}
+	var items []item
+	for _, b := range bases {
+		for pos := 0; pos < len(b.files[b.path]); pos++ {
+			items = append(items, item{b, pos})
+		}
+	}
+	r.Set("A2_positions", len(items))
+	r.ParallelFor(len(items), 0, func(i int) {
+		it := items[i]
+		t := tally{}
+		before := e.observe(it.b.files)
+		orig := it.b.files[it.b.path]
+		seen := map[string]string{}
+		for x, name := range obsNames {
+			seen[name+"|"+before.str(x)] = "original"
+		}
+		step := 1
+		if len(orig) > 3 && r.Quick() {
+			step = 17 // long content: 15 replacement values per position in the quick tier, all 255 in thorough
+		}
+		for v := 1; v < 256; v += step {
+			nb := []byte(orig)
+			nb[it.pos] ^= byte(v)
+			f := cloneFiles(it.b.files)
+			f[it.b.path] = string(nb)
+			after := e.observe(f)
+			t.add("A2/byte-replacements", 1)
+			mf := refModuleFiles(f)
+			wants := [3]string{refB4(mf, nil), refB5(mf, nil), refB5(mf, nil)}
+			for x, name := range obsNames {
+				want, got := wants[x], after.str(x)
+				dt := "b5"
+				if x == 0 {
+					dt = "b4"
+				}
+				if got == "" {
+					e.r.Violate("digest-error/byte-replacement/"+name, "no digest after a single-byte replacement",
+						caseA{Part: "A2", Files: f, Config: name})
+					continue
+				}
+				if got != want {
+					e.r.Violate("refdigest/"+dt+"/"+diagnose(dt, got, f, nil, nil), "digest differs from the reference construction",
+						caseA{Part: "A2", Files: f, Config: name, Want: want, Got: got})
+				}
+				if prev, dup := seen[name+"|"+got]; dup {
+					e.r.Violate("sensitivity/insensitive/"+refRole(it.b.path, f), "two contents differing in one byte have the same digest",
+						caseA{Part: "A2", Files: it.b.files, Files2: f, Config: name, Got: got, Perturb: fmt.Sprintf("byte %d of %q xor %#x (same digest as %s)", it.pos, it.b.path, v, prev)})
+				}
+				seen[name+"|"+got] = fmt.Sprintf("xor %#x", v)
+			}
+		}
+		e.merge(t)
+	})
+}
